@@ -36,7 +36,7 @@ REPETITIVE = (
 
 # pairs of spellings whose node classes are parent and child (TryCast < Cast, ConcatWs < Concat, SafeDivide ...): the two trees
 # differ ONLY in the class of one node, which the matcher must not treat as the same type
-CLASS_SWAPS = (("TRY_CAST(a AS INT)", "CAST(a AS INT)"), ("CONCAT_WS(a, b, c)", "CONCAT(a, b, c)"), ("APPROX_QUANTILE(a, 0.5)", "QUANTILE(a, 0.5)"), ("a ILIKE b", "a LIKE b"), ("a <= b", "a < b"), ("COUNT(a)", "SUM(a)"), ("a / b", "a * b"))
+CLASS_SWAPS = (("foo(a, b)", "FOO(a, b)"), ("my_udf(a)", "My_Udf(a)"), ("TRY_CAST(a AS INT)", "CAST(a AS INT)"), ("CONCAT_WS(a, b, c)", "CONCAT(a, b, c)"), ("APPROX_QUANTILE(a, 0.5)", "QUANTILE(a, 0.5)"), ("a ILIKE b", "a LIKE b"), ("a <= b", "a < b"), ("COUNT(a)", "SUM(a)"), ("a / b", "a * b"))
 SWAP_CONTEXTS = ("SELECT {e} AS x FROM t", "SELECT b FROM t WHERE {e} = 1", "SELECT {e}, {e}, b FROM t GROUP BY b", "SELECT b FROM (SELECT {e} AS b FROM t) AS s ORDER BY b")
 
 
